@@ -7,12 +7,11 @@ is compared with the reference state at T:  E_k = max_i max(|dr_i|/L, |dv_i|/V),
 distance / speed in the reference.
 
 Assertions (p = asserted order, see ORDER TABLE):
-  rate      for every level j with floor_j <= E_j <= 1e-2 and every finer level k>j:
-                E_k <= floor_k + A * E_j * 2^-(p*(k-j)),   A = 3
-            i.e. the observed order over the 3 halvings is >= p-0.53 and >= p-1.58 over a single halving (a single
-            halving can sit next to a sign change of the leading error term; factor-2 dips are observed on the
-            unchanged tree, deeper ones are not).   floor_k = max(1e-12, 16*eps*H*sqrt(work*n_k)) is the rounding
-            floor: H = size of the system / smallest separation, work = elementary stages per step.
+  rate      the median of the three adjacent observed orders log2(E_k/E_k+1) (maximum if only two are measurable:
+            both levels in [4*floor_k, 1e-2]) is >= p-0.8; and E_k <= floor_k + 64*E_j*2^-(p*(k-j)) for all j<k with
+            E_j in the window (see check_rate for why single pairs are not asserted).  floor_k = max(1e-12,
+            16*eps*H*sqrt(work*n_k)) is the rounding floor: H = size of the system / smallest separation, work =
+            elementary stages per step; E_k is the maximum over three epochs T/3, 2T/3, T.
   converge  E_3 <= 1e-3 and E_3 <= E_0 + floor  (a scheme converging to a wrong trajectory fails 'rate').
   adaptive  IAS15 / BS: error within the advertised accuracy class, tightening the tolerance does not make it worse.
   time      sim.t after the run equals the requested time (to accumulated rounding of t += dt).
@@ -34,8 +33,8 @@ LEVEL = "exploration"
 RULE = ("A case is (system, integrator configuration, regime, direction of time, test-particle partition). "
         "Fixed-step schemes: the error against the quad-precision reference is measured at dt0*2^-k, k=0..3; the "
         "case is non-trivial iff the reference end state differs from the initial state by > 1e-3 (scaled) and at "
-        "least one level has its error inside the measurable window [rounding floor, 1e-2] with a finer level "
-        "after it, so that the rate assertion was evaluated on measured numbers (certified slopes are in stats).  "
+        "least two adjacent observed orders were measurable (both errors inside [4 x rounding floor, 1e-2]), so "
+        "that the robust-slope assertion was evaluated on measured numbers (largest deficit is in stats).  "
         "Adaptive schemes / user ODEs: non-trivial iff the system moved and the error was compared with the class "
         "bound for two tolerances.  Distinct by case hash.")
 ASSUMPTIONS = [
@@ -54,7 +53,8 @@ VARIANTS = ["avx512"]
 
 FLOOR = 1e-12
 CEIL = 1e-2
-A_DIP = float(os.environ.get("VERIF_C01_A", "4.0"))      # the env override exists only to calibrate the margin
+SLACK = 0.8
+A_DIP = float(os.environ.get("VERIF_C01_A", "64.0"))      # the env override exists only to calibrate the margin
 KR = 16.0
 EPS = 2.220446049250313e-16
 LEVELS = 4
@@ -87,7 +87,8 @@ EOS_ORDERS = {   # docs/integrators.md table (Rein 2019)
 EOS_STAGES = {"lf": 1, "lf4": 3, "lf6": 9, "lf8": 17, "lf4_2": 2, "lf8_6_4": 7, "plf7_6_4": 3, "pmlf4": 1, "pmlf6": 3}
 JANUS_STAGES = {2: 1, 4: 5, 6: 9, 8: 15, 10: 33}
 PCAP = {"default": 6, "ias15fixed": 10}
-JANUS_FLOOR = 1e-10     # integer grid 1e-16 accumulated over stages*steps (observed 1e-12..3e-12)
+KJ = 4.0     # JANUS: truncation to the integer grid is biased -> the grid error grows linearly with stages*steps
+             # (measured 0.23 * (scale_pos/L + scale_vel/V) per stage and step)
 
 
 def cfg_get(cfg, path, default=None):
@@ -162,10 +163,13 @@ def dt0_div(cfg, regime):
     if fam == "janus":
         return {2: 256, 4: 32}.get(pmin, 16) * f
     if fam == "ias15fixed":
-        return 3
+        return 6        # coarser steps are not in the asymptotic regime (predictor-corrector not converged)
     if fam == "eos":
         o1 = EOS_ORDERS[cfg_get(cfg, "ri_eos.phi1")][1]
-        return {2: 256, 4: 32}.get(o1, 16) * f
+        # processed outer schemes: the leading error coefficient of PMLF4 changes sign close to dt = P/16
+        # (measured: E(P/16) a factor 10 below the asymptotic line), so they start one level finer
+        g = 2 if cfg_get(cfg, "ri_eos.phi0") in ("pmlf4", "pmlf6", "plf7_6_4") else 1
+        return max({2: 256, 4: 32}.get(o1, 16), 16 * g) * f
     return 16 * f
 
 
@@ -224,10 +228,18 @@ def hierarchy(sysd):
     return max(1.0, size / dmin) if dmin > 0 else 1e30
 
 
+def size_speed(sysd):
+    ps = sysd["particles"]
+    L = max(math.sqrt(p.get("x", 0.0) ** 2 + p.get("y", 0.0) ** 2 + p.get("z", 0.0) ** 2) for p in ps)
+    V = max(math.sqrt(p.get("vx", 0.0) ** 2 + p.get("vy", 0.0) ** 2 + p.get("vz", 0.0) ** 2) for p in ps)
+    return L, V
+
+
 def floor_for(sysd, cfg, nsteps):
     f = max(FLOOR, KR * EPS * hierarchy(sysd) * math.sqrt(work(cfg) * nsteps))
     if cfg["family"] == "janus":
-        f = max(f, JANUS_FLOOR)
+        L, V = size_speed(sysd)
+        f += KJ * (cfg_get(cfg, "ri_janus.scale_pos") / L + cfg_get(cfg, "ri_janus.scale_vel") / V) * work(cfg) * nsteps
     return f
 
 
@@ -259,41 +271,78 @@ def moved(sysd, ref):
     return m
 
 
-def fixed_levels(sysd, cfg, dt0, n0, backward, levels=LEVELS, cache=False, ref=None, mk=setup):
-    """Returns (Es, ref, tdev) with tdev = max_k |sim.t - T| / (|T| * n_k * eps)."""
+NSEG = 3     # checkpoints per run: E_k is the maximum over the states at T/3, 2T/3 and T
+
+
+def fixed_levels(sysd, cfg, dt0, n0, backward, levels=LEVELS, cache=False, ref=None, mk=None, rspec=None):
+    """n0 must be a multiple of NSEG.  Returns (Es, refs, tdev): Es[k] = max over the NSEG checkpoints of the scaled
+    error at level k (the simulation is synchronized at each checkpoint and continued: taking the maximum over
+    three epochs fills the dips that a sign change of the leading error term produces at a single epoch);
+    tdev = max |sim.t - T| / (|T| * n_k * eps)."""
     from ..oracles import c01_ref
     sgn = -1.0 if backward else 1.0
-    T = sgn * dt0 * n0
+    seg = n0 // NSEG
+    times = [sgn * dt0 * seg * (s + 1) for s in range(NSEG)]
     if ref is None:
-        ref = c01_ref.reference(ref_spec(sysd), [T], cache=cache)[0]
+        ref = c01_ref.reference(rspec or ref_spec(sysd), times, cache=cache)
     Es = []
     tdev = 0.0
     for k in range(levels):
-        sim = mk(sysd, cfg)
+        sim = (mk or setup)(sysd, cfg)
         sim.dt = sgn * dt0 / 2 ** k
-        nk = n0 * 2 ** k
-        sim.steps(nk)
-        sim.synchronize()
-        E, _ = state_error(sim, ref)
+        E = 0.0
+        for s in range(NSEG):
+            sim.steps(seg * 2 ** k)
+            sim.synchronize()
+            e, _ = state_error(sim, ref[s])
+            E = max(E, e)
+            nk = seg * (s + 1) * 2 ** k
+            tdev = max(tdev, abs(sim.t - times[s]) / (abs(times[s]) * nk * EPS))
         Es.append(E)
-        tdev = max(tdev, abs(sim.t - T) / (abs(T) * nk * EPS))
         del sim
     return Es, ref, tdev
 
 
+def n0_for(norb, P, dt0):
+    return NSEG * max(1, int(round(norb * P / dt0 / NSEG)))
+
+
 def check_rate(Es, floors, p, ctx, what, details):
-    """rate + convergence assertions on errors at halved steps. Returns the number of levels used as anchors."""
-    anchors = 0
+    """rate + convergence assertions on errors at halved steps.  Returns the number of measured slopes used.
+
+    R-a  robust slope: adjacent slopes log2(E_k/E_k+1) between levels that are both measurable
+         (4*floor_k <= E_k <= 1e-2).  With three slopes their median, with two their maximum, must be >= p-SLACK.
+         (The error of a scheme whose leading terms have opposite signs passes through a zero as a function of dt:
+         one level can be anomalously accurate - observed up to a factor 15 on the unchanged tree - which lowers
+         the slope after it and raises the slope before it; the median of three / maximum of two adjacent slopes
+         is insensitive to one such level, while a scheme of lower order has all its slopes low.)
+    R-b  safety net for schemes that leave the window after one level: for every level j in the window and every
+         finer level k:  E_k <= floor_k + A * E_j * 2^-(p*(k-j)),  A = 64 (4x the deepest dip observed).
+    R-c  convergence to the right answer: E_last <= 1e-3 and E_last <= E_first + floor."""
     n = len(Es)
+    usable = [k for k in range(n) if 4.0 * floors[k] <= Es[k] <= CEIL]
+    slopes = [math.log2(Es[k] / Es[k + 1]) for k in usable if (k + 1) in usable]
+    robust = None
+    if len(slopes) >= 3:
+        ss = sorted(slopes)
+        robust = ss[(len(ss) - 1) // 2]
+    elif len(slopes) == 2:
+        robust = max(slopes)
+    if robust is not None:
+        ctx.stat_max("order_deficit_max(p - robust slope)", p - robust)
+        ctx.stat_max("certified_order_max", robust)
+        if not robust >= p - SLACK:
+            raise Violation("%s: error does not shrink at the advertised order %g: errors at dt0/2^k = [%s], slopes [%s], "
+                            "robust slope %.2f < %g-%.1f" % (what, p, ", ".join("%.3e" % e for e in Es),
+                                                               ", ".join("%.2f" % x for x in slopes), robust, p, SLACK),
+                            errors=Es, floors=floors, order=p, **details)
     for j in range(n - 1):
         a = Es[j]
         if not (floors[j] <= a <= CEIL):
             continue
-        anchors += 1
         for k in range(j + 1, n):
             b = Es[k]
             bound = floors[k] + A_DIP * a * 2.0 ** (-p * (k - j))
-            ctx.stat_max("rate_ratio_max(E_k/bound)", b / bound)
             if b > 2 * floors[k]:
                 ctx.stat_max("A_needed_max", (b - floors[k]) / (a * 2.0 ** (-p * (k - j))))
             if not b <= bound:
@@ -301,7 +350,6 @@ def check_rate(Es, floors, p, ctx, what, details):
                                 "E(dt0/%d)=%.3e, observed order %.2f per halving (bound %.3e = floor + %g*E*2^-%g)"
                                 % (what, p, 2 ** j, a, 2 ** k, b, math.log2(a / b) / (k - j) if b > 0 else 99.0,
                                    bound, A_DIP, p * (k - j)), errors=Es, floors=floors, order=p, **details)
-        ctx.stat_max("certified_order_max", math.log2(a / max(Es[j + 1], floors[j + 1])))
     last, first = Es[-1], Es[0]
     if not last <= 1e-3:
         raise Violation("%s: does not converge to the true solution: error %.3e at the finest step" % (what, last),
@@ -309,7 +357,7 @@ def check_rate(Es, floors, p, ctx, what, details):
     if not last <= first + floors[-1]:
         raise Violation("%s: error at the finest step (%.3e) exceeds the error at the coarsest (%.3e)" % (what, last, first),
                         errors=Es, order=p, **details)
-    return anchors
+    return len(slopes) if robust is not None else 0
 
 
 # ---------------------------------------------------------------------------------------------------------------
@@ -409,8 +457,11 @@ def full_lattice():
 def fam_cfg(fam):
     """Strategy for one configuration of a fixed-step family (sampled from the documented lattice)."""
     if fam == "whfast":
-        return st.builds(lambda t, sm: whfast_cfg(t[0], t[1], t[2], t[3], sm), st.sampled_from(S.whfast_lattice()),
-                         st.sampled_from([0, 1]))
+        # coordinate system first (democratic heliocentric and WHDS have a single valid option combination each)
+        lat = S.whfast_lattice()
+        return st.sampled_from(["jacobi", "jacobi", "jacobi", "barycentric", "democraticheliocentric", "whds"]).flatmap(
+            lambda c: st.builds(lambda t, sm: whfast_cfg(t[0], t[1], t[2], t[3], sm),
+                                st.sampled_from([t for t in lat if t[0] == c]), st.sampled_from([0, 1])))
     if fam == "saba":
         return st.builds(saba_cfg, st.sampled_from(S.SABA_TYPES), st.sampled_from([0, 1]))
     if fam == "eos":
@@ -468,13 +519,11 @@ def run_order(case, ctx):
     regime = case["regime"]
     sysd = apply_tp(case["system"], case["tp"])
     backward = case["backward"]
-    if fam == "trace" and backward and ctx.finding_open(TRACE_BACKWARD):
-        ctx.excluded(TRACE_BACKWARD)
-        return
     p = asserted_order(cfg, regime)
     dt0 = snap(sysd["P_min"] / dt0_div(cfg, regime))
-    n0 = max(2, int(round(case["norb"] * sysd["P_min"] / dt0)))
-    Es, ref, tdev = fixed_levels(sysd, cfg, dt0, n0, backward, cache=case.get("cache", False))
+    n0 = n0_for(case["norb"], sysd["P_min"], dt0)
+    Es, refs, tdev = fixed_levels(sysd, cfg, dt0, n0, backward, cache=case.get("cache", False))
+    ref = refs[-1]
     floors = [floor_for(sysd, cfg, n0 * 2 ** k) for k in range(len(Es))]
     details = {"dt0": dt0, "n0": n0, "regime": regime}
     what = "%s %s %s%s%s" % (fam, short(cfg), regime, " backward" if backward else "",
@@ -566,6 +615,7 @@ def lattice_cases(tier):
 
 IAS15_CLASS = 1e-11      # "accurate down to machine precision": scaled error after <= 6 inner periods (x H)
 BS_K = 1e3               # error <= BS_K * eps_rel * inner periods (+ floor), DESIGN
+STEP_CAP = 200000        # an adaptive run of <= 6 inner periods needs 1e2..1e4 steps
 
 
 @st.composite
@@ -579,7 +629,6 @@ def adaptive_case(draw, tier="quick"):
          "dt_frac": draw(st.sampled_from([0.001, 0.01, 0.05]))}
     if fam == "ias15":
         d["mode"] = draw(st.sampled_from([0, 1, 2, 3]))
-        d["eps"] = draw(st.sampled_from([1e-9, 1e-9, 1e-8]))
     else:
         d["eps"] = draw(st.sampled_from([1e-8, 1e-10]))
     return d
@@ -596,6 +645,9 @@ def run_adaptive(case, ctx):
     ref = c01_ref.reference(ref_spec(sysd), [T])[0]
     H = hierarchy(sysd)
 
+    class Collapse(Exception):
+        pass
+
     def run(eps):
         if fam == "ias15":
             cfg = {"integrator": "ias15", "set": [["ri_ias15.epsilon", eps], ["ri_ias15.adaptive_mode", case["mode"]]]}
@@ -603,33 +655,53 @@ def run_adaptive(case, ctx):
             cfg = {"integrator": "bs", "set": [["ri_bs.eps_rel", eps], ["ri_bs.eps_abs", eps]]}
         sim = setup(sysd, cfg)
         sim.dt = sgn * case["dt_frac"] * sysd["P_min"]
+        count = [0]
+
+        def hb(_):
+            count[0] += 1
+            if count[0] > STEP_CAP:
+                sim.stop()
+        sim.heartbeat = hb
         sim.integrate(T)
+        if count[0] > STEP_CAP:
+            raise Collapse()
         if sim.t != T:
             raise Violation("%s: integrate(%r) returned at t=%r" % (fam, T, sim.t))
         E, _ = state_error(sim, ref)
         n = sim.steps_done
         return E, n
 
-    eps = case["eps"]
-    E1, n1 = run(eps)
-    what = "%s eps=%g %s%s%s" % (fam, eps, ("mode=%d " % case["mode"]) if fam == "ias15" else "", case["regime"],
-                                 " backward" if case["backward"] else "")
+    # IAS15: the default epsilon=1e-9 is the advertised setting ("machine precision"); it is compared with the
+    # looser 1e-8.  BS: eps and eps/100.
+    loose, tight = (1e-8, 1e-9) if fam == "ias15" else (case["eps"], case["eps"] / 100.0)
+    what = "%s %s%s%s" % (fam, ("mode=%d " % case["mode"]) if fam == "ias15" else "", case["regime"],
+                          " backward" if case["backward"] else "")
+    try:
+        El, nl = run(loose)
+        Et, nt = run(tight)
+    except Collapse:
+        # the step size collapsed (> STEP_CAP steps for a few orbits): no state at T to compare; not an accuracy
+        # statement (observed for adaptive_mode=0 when an acceleration component passes through zero)
+        ctx.cls("step_collapse:%s" % (("ias15 mode %d" % case["mode"]) if fam == "ias15" else "bs"))
+        return
     if fam == "ias15":
         bound = IAS15_CLASS * H * math.sqrt(case["norb"])
-        E2, n2 = run(eps / 10.0)
-        loose = None
+        ctx.stat_max("ias15_error/class_bound", Et / bound)
+        if not Et <= bound:
+            raise Violation("%s: error %.3e with the default epsilon exceeds the advertised accuracy class %.3e"
+                            % (what, Et, bound), steps=nt, H=H)
     else:
-        bound = FLOOR * H + BS_K * eps * case["norb"]
-        E2, n2 = run(eps / 100.0)
-    ctx.stat_max("%s_error/class_bound" % fam, E1 / bound)
-    if not E1 <= bound:
-        raise Violation("%s: error %.3e exceeds the advertised accuracy class %.3e" % (what, E1, bound),
-                        steps=n1, H=H)
-    fl = max(FLOOR, KR * EPS * H * math.sqrt(8.0 * max(n1, n2)))
-    ctx.stat_max("%s_tightened/(2*loose+floor)" % fam, E2 / (2 * E1 + fl))
-    if not E2 <= 2 * E1 + fl:
-        raise Violation("%s: tightening the tolerance to %g increases the error from %.3e to %.3e"
-                        % (what, eps / (10.0 if fam == "ias15" else 100.0), E1, E2), H=H)
+        for e_, E_, n_ in ((loose, El, nl), (tight, Et, nt)):
+            bound = FLOOR * H + BS_K * e_ * case["norb"]
+            ctx.stat_max("bs_error/class_bound", E_ / bound)
+            if not E_ <= bound:
+                raise Violation("%s: error %.3e with eps=%g exceeds the advertised accuracy class %.3e"
+                                % (what, E_, e_, bound), steps=n_, H=H)
+    fl = max(FLOOR, KR * EPS * H * math.sqrt(8.0 * max(nl, nt)))
+    ctx.stat_max("%s_tightened/(2*loose+floor)" % fam, Et / (2 * El + fl))
+    if not Et <= 2 * El + fl:
+        raise Violation("%s: tightening the tolerance from %g to %g increases the error from %.3e to %.3e"
+                        % (what, loose, tight, El, Et), H=H)
     ctx.cls("family:" + fam)
     if case["backward"]:
         ctx.cls("backward")
@@ -759,10 +831,7 @@ def run_sei(case, ctx):
     sysd = {"G": case["G"], "particles": case["particles"], "softening": case["softening"]}
     P = 2 * math.pi / OM
     dt0 = snap(P / 32.0)
-    n0 = max(2, int(round(case["norb"] * P / dt0)))
-    sgn = -1.0 if case["backward"] else 1.0
-    T = sgn * dt0 * n0
-    ref = c01_ref.reference(ref_spec(sysd, {"mode": "hill", "OMEGA": OM, "OMEGAZ": OMZ}), [T])[0]
+    n0 = n0_for(case["norb"], P, dt0)
 
     def mk(sysd_, cfg_):
         sim = rb.new_sim({"G": sysd["G"], "particles": sysd["particles"], "softening": sysd["softening"]})
@@ -774,7 +843,8 @@ def run_sei(case, ctx):
             sim.gravity = "none"
         return sim
     cfg = {"family": "sei", "set": []}
-    Es, ref, tdev = fixed_levels(sysd, cfg, dt0, n0, case["backward"], ref=ref, mk=mk)
+    Es, refs, tdev = fixed_levels(sysd, cfg, dt0, n0, case["backward"], mk=mk,
+                                  rspec=ref_spec(sysd, {"mode": "hill", "OMEGA": OM, "OMEGAZ": OMZ}))
     H = hierarchy(sysd) if len(sysd["particles"]) > 1 else 1.0
     floors = [max(FLOOR, KR * EPS * 10 * H * math.sqrt(2.0 * n0 * 2 ** k)) for k in range(len(Es))]
     what = "sei OMEGA=%g%s%s" % (OM, " free" if case["free"] else "", " backward" if case["backward"] else "")
@@ -810,6 +880,10 @@ def whfast512_case(draw, tier="quick"):
             "gr": 0}
 
 
+# finding: the jump step of WHFast512 uses the mass of star 0 for all systems integrated in parallel
+WHFAST512_STARMASS = "C01-whfast512-jump-star-mass"
+
+
 def run_whfast512(case, ctx):
     import warnings
     from .. import build, rb
@@ -820,6 +894,9 @@ def run_whfast512(case, ctx):
         return
     ns = case["N_systems"]
     systems = case["systems"]
+    if ns > 1 and len({s["particles"][0]["m"] for s in systems}) > 1 and ctx.finding_open(WHFAST512_STARMASS):
+        ctx.excluded(WHFAST512_STARMASS)
+        return
     Pmin = min(s["P_min"] for s in systems)
     dt0 = snap(Pmin / 16.0)
     n0 = max(2, int(round(case["norb"] * Pmin / dt0)))
@@ -829,7 +906,7 @@ def run_whfast512(case, ctx):
     cfg = {"family": "whfast512", "set": []}
     Es = []
     for k in range(LEVELS):
-        sim = rb.new_sim({"G": 1.0, "particles": allp})
+        sim = rb.new_sim({"G": 1.0, "particles": allp, "exact_finish_time": 0})      # documented requirement
         sim.integrator = "whfast512"
         sim.ri_whfast512.N_systems = ns
         sim.dt = dt0 / 2 ** k
@@ -864,7 +941,7 @@ def run_whfast512(case, ctx):
 
 def subs(tier):
     return [
-        Sub("order", run_order, strategy=order_case(tier), quick=480, thorough=24000, shards_quick=16, shards_thorough=16),
+        Sub("order", run_order, strategy=order_case(tier), quick=400, thorough=24000, shards_quick=16, shards_thorough=16),
         Sub("lattice", run_order, cases=lattice_cases, quick=0, thorough=0, shards_quick=16, shards_thorough=16),
         Sub("adaptive", run_adaptive, strategy=adaptive_case(tier), quick=160, thorough=6400, shards_quick=8, shards_thorough=16),
         Sub("ode", run_ode, strategy=ode_case(tier), quick=48, thorough=1600, shards_quick=8, shards_thorough=16),
